@@ -439,8 +439,12 @@ class _FnInfo:
             s.defs.setdefault(t.id, []).append((value, set(ctrl), in_loop))
             if in_loop: s.loop_assigned.add(t.id)
         elif isinstance(t, (ast.Tuple, ast.List)):
+            # named extraction  a, b, c = take(source, ["a", "b", "c"]) : each component is an input in its own right (slicing through the common
+            # right-hand side would make every component depend on everything); any other unpacking (Q, R = qr(V)) is sliced through its value
+            named = isinstance(value, ast.Call) and any(isinstance(a, (ast.List, ast.Tuple)) and len(a.elts) == len(t.elts) and
+                                                          all(isinstance(x, ast.Constant) and isinstance(x.value, str) for x in a.elts) for a in list(value.args) + [k.value for k in value.keywords])
             for e in t.elts:
-                if isinstance(e, ast.Name) and not (isinstance(value, (ast.Tuple, ast.List)) and len(value.elts) == len(t.elts)): s.unpacked.add(e.id)
+                if isinstance(e, ast.Name) and named: s.unpacked.add(e.id)
                 s._bind(e, value, ctrl, in_loop)
 
     def slice_deps(s, expr, stop=()):
@@ -844,6 +848,35 @@ def check_single_fields(ctx, rule="R8-single-bin", only=None):
             inner = Arr(A.axes[1:], select(A.body, choose)) if A.ndim == 2 else select(A.body, choose)
             st_, why = same_arr(inner, reference_starts(N, L, K))
             ctx.ob(rule, c, st_, why, where)
+        # boundary instances of the segment count: the single-segment branch is taken exactly when the count formula gives 1, so the stored K,
+        # navg and the number of starts are the formula's value also for K = 1, 2, 3, 4 (normal forms evaluated at concrete configurations)
+        if use_L and (only is None or "K" in only):
+            from .symalg import NumEnv, evalx
+            for Lb in (900.0, 600.0, 450.0, 400.0):
+                pt = dict(GENERIC, N=1000.0, Lreq=Lb, olap=0.5)
+                chb = numeric_chooser(pt)
+                env = NumEnv(7); env.fixed.update(pt)
+                try: want_k = round(evalx(reference_count(N, L), env).real)
+                except Exception: continue
+                c = f"{fkey}[{tag}:count at N=1000, L={int(Lb)}, olap=0.5]"
+                got = {}
+                for k in ("K", "navg"):
+                    A = as_arr(select(d.get(k), chb)) if d.get(k) is not None else None
+                    el = select(A.body, chb) if A is not None else None
+                    try: got[k] = round(evalx(to_x(el), env).real) if el is not None and to_x(el) is not None else None
+                    except Exception: got[k] = None
+                vD = select(d.get("D"), chb); AD = as_arr(vD)
+                try:
+                    cntx = AD.axes[1][1] if AD is not None and AD.ndim == 2 else (as_arr(select(AD.body, chb)).axes[0][1] if AD is not None and as_arr(select(AD.body, chb)) is not None else None)
+                    got["starts"] = round(evalx(select(cntx, chb) if not isinstance(cntx, X) else cntx, env).real) if cntx is not None else None
+                except Exception: got["starts"] = None
+                if any(v is None for v in got.values()):
+                    ctx.unknown(rule, c, f"count fields not evaluable: {got}", where)
+                elif all(v == want_k for v in got.values()):
+                    ctx.holds(rule, c, f"K = navg = number of starts = {want_k}", where)
+                else:
+                    ctx.violated(rule, c, f"the count formula min(nearest(1+(N-L)/((1-olap)L)), N-L+1) gives {want_k} segments for this request, the result carries {got}: "
+                                 "the single-segment branch is not taken exactly when one segment fits", where)
         # degenerate request: one segment covering the whole record
     if only is not None and "D" not in only: return
     # single segment when the request covers the whole record
@@ -955,7 +988,7 @@ def sanitising_lib(base):
             if A is None: return Opaque("isfinite of a partially defined array")
 
             def fin_test(x):
-                c = Cond.get(("finite", x.keystr()), f"isfinite({x!r})"[:100]); c.finite_of = x
+                c = Cond.get(("finite", x.keystr()), f"isfinite({x!r})"[:100]); c.finite_elem = x
                 return PV(c, True, False)
             return lift1(fin_test, A)
         return base(I, name, args, kw, st, n)
@@ -973,13 +1006,13 @@ def _proven_finite(path, leaf, jvar):
     """the path contains isfinite(E) taken true for this very element, or `all(isfinite(E'))` taken true for an array whose element is this leaf."""
     for cond, pol in path:
         if not pol: continue
-        fo = getattr(cond, "finite_of", None)
+        fo = getattr(cond, "finite_elem", None)
         if fo is not None and fo.eq(leaf): return True
         A = getattr(cond, "all_of", None)
         if A is None or A.ndim != 1: continue
         b = A.body
-        if not (isinstance(b, PV) and b.hi is True and b.lo is False and getattr(b.cond, "finite_of", None) is not None): continue
-        if b.cond.finite_of.eq(leaf.subst({jvar: X.var(A.axes[0][0])})): return True
+        if not (isinstance(b, PV) and b.hi is True and b.lo is False and getattr(b.cond, "finite_elem", None) is not None): continue
+        if b.cond.finite_elem.eq(leaf.subst({jvar: X.var(A.axes[0][0])})): return True
     return False
 
 
